@@ -268,6 +268,15 @@ package goose
 //@   may_reject
 //@   ensures [dependency on the struct recorded] depset[ref(ctx.dep)][info.name]
 
+// A dependency is recorded only for names the output mentions: a pointer type is erased to ptrT
+// (its pointee is not mentioned), so translating `*T` records nothing. A spurious edge could close
+// a cycle in the recorded graph of a package whose real dependency graph is acyclic.
+//@ func (Ctx).coqType
+//@   may_reject
+//@   noframe
+//@   use ast
+//@   ensures [C04 a pointer type mentions nothing: no dependency is recorded for it] typeis(e, *ast.StarExpr) ==> depset == old(depset)
+
 // ---- emission order (C04): every declaration is emitted once, after everything it mentions --------
 // Decls emits the declarations depth first. `emitted` is the ghost set of declarations whose Coq
 // text has been appended to the output (set at the call of filterImports, whose result is what is
@@ -276,19 +285,42 @@ package goose
 // every edge (a finite graph is acyclic iff it has one); it is assumed where the graph is complete
 // (entry of Decls' emission loop) and nowhere else.
 
+//@ default_use
 //@ ghost var emitted map[declId]bool
+// inprog: the declarations on the recursion stack of processDecl (pushed at the recursive call,
+// popped where the declaration is emitted). Termination of the recursion (C07): each nested call
+// has a strictly larger stack, and the universe of declaration identifiers is finite.
+//@ ghost var inprog map[declId]bool
+//@ ghost func remaining(s map[declId]bool) Int
+//@ axiom [finite] remaining_nonneg: forall s math map[declId]bool :: {remaining(s)} remaining(s) >= 0
+//@ axiom [finite] remaining_push: forall s math map[declId]bool, x declId :: {remaining(s[x := true])} !s[x] ==> remaining(s[x := true]) < remaining(s)
 //@ ghost func rank(x declId) Int
 //@ ghost func gen(g map[declId]bool, s declId) bool = has(g, s) && g[s]
-//@ ghost func wellranked(dd map[declId][]string, nd map[string]declId) bool = forall x declId, k int :: 0 <= k && k < len(dd[x]) && has(dd, x) && has(nd, dd[x][k]) ==> rank(nd[dd[x][k]]) < rank(x)
+//@ ghost func wellranked(dd map[declId][]string, nd map[string]declId) bool = forall x declId, j int :: {elemat(mapval(dd, x), j)} has(dd, x) && mapval(dd, x).off <= j && j < mapval(dd, x).off + len(mapval(dd, x)) && has(nd, elemat(mapval(dd, x), j)) ==> rank(nd[elemat(mapval(dd, x), j)]) < rank(x)
 
+//@ ghost func namesvalid(nd map[string]declId, n int) bool = forall s string :: has(nd, s) ==> 0 <= nd[s].fileIdx && nd[s].fileIdx < n
 //@ ghost func depsalloc(dd map[declId][]string) bool = forall x declId :: has(dd, x) && len(dd[x]) > 0 ==> allocated(dd[x])
 
 //@ func filterImports
 //@   ensures [C04 imports and the other declarations partition the group: nothing is dropped] len(result.0) + len(result.1) == len(decls)
-//@   modifies fresh
+//@   modifies fresh(coq.Decl, coq.ImportDecl)
 //@   loop 1 invariant [C04 every declaration so far is kept] len(nonImports) + len(imports) == rangeindex + 1 && rangeindex < len(decls)
+//@   loop 1 invariant [C04 frame: nothing that existed before is written] modifies_only(fresh(coq.Decl, coq.ImportDecl))
+//@   loop 1 invariant [C04 the results are built in storage of their own] (cap(nonImports) == 0 || fresh(nonImports)) && (cap(imports) == 0 || fresh(imports))
 //@ func (Ctx).Decls$1
+//@   also C07
+//@   use finite
 //@   funcvalue processDecl = (Ctx).Decls$1
+//@   decreases remaining(inprog)
+//@   requires [C07 the recursion stack holds only declarations marked generated] forall s declId :: {inprog[s]} inprog[s] ==> gen(g, s)
+//@   requires [C07 the declaration belongs to one of the files] 0 <= id.fileIdx && id.fileIdx < len(*fs)
+//@   requires [C07 every name belongs to a declaration of one of the files] namesvalid(nd, len(*fs))
+//@   ensures [C07 the recursion stack is restored] inprog == old(inprog)
+//@   ensures [C04 the output slices grow in place or move to fresh storage] (ref(*decls) == old(ref(*decls)) || fresh(*decls)) && (ref(*imports) == old(ref(*imports)) || fresh(*imports))
+//@   ghost_at_call Decls$1 inprog = inprog[id := true]
+//@   ghost_at_call filterImports inprog = inprog[id := false]
+//@   loop 1 invariant [C07 the recursion stack is the caller's, plus this declaration once a dependency has been visited] inprog == old(inprog) || inprog == old(inprog)[id := true]
+//@   loop 1 invariant [C07 the recursion stack holds only declarations marked generated] forall s declId :: {inprog[s]} inprog[s] ==> gen(g, s)
 //@   let g = *generated
 //@   let dd = *declDeps
 //@   let nd = *nameDecls
@@ -298,18 +330,21 @@ package goose
 //@   requires [C04 every declaration in progress ranks above this one] forall s declId :: {emitted[s]} gen(g, s) && !emitted[s] ==> rank(s) > rank(id)
 //@   requires [C04 only generated declarations are emitted] forall s declId :: {emitted[s]} emitted[s] ==> gen(g, s)
 //@   requires [C04 generated map exists] *generated != nil
+//@   requires [C04 captured variables and maps are allocated] allocated(fs) && allocated(declDeps) && allocated(nameDecls) && allocated(generated) && allocated(declGroups) && allocated(dd) && allocated(nd) && allocated(g)
 //@   requires [C04 dependency lists are allocated] depsalloc(dd)
 //@   ensures [C04 the declaration is emitted] emitted[id]
 //@   ensures [C04 nothing is un-emitted] forall s declId :: {emitted[s]} old(emitted[s]) ==> emitted[s]
 //@   ensures [C04 the declarations in progress are the same] forall s declId :: {emitted[s]} (gen(g, s) && !emitted[s]) <==> old(gen(g, s) && !emitted[s])
 //@   ensures [C04 only generated declarations are emitted] forall s declId :: {emitted[s]} emitted[s] ==> gen(g, s)
-//@   at_call filterImports [C04 definition comes after every definition it mentions] forall k int :: {deps[k]} 0 <= k && k < len(deps) && has(nd, deps[k]) ==> emitted[nd[deps[k]]]
+//@   at_call filterImports [C04 definition comes after every definition it mentions] forall j int :: {elemat(deps, j)} deps.off <= j && j < deps.off + len(deps) && has(nd, elemat(deps, j)) ==> emitted[nd[elemat(deps, j)]]
 //@   at_call filterImports [C04 emitted exactly once] !emitted[id]
 //@   ghost_at_call filterImports emitted = emitted[id := true]
-//@   modifies cell(decls), cell(imports), cell(lastFile), map(*generated), emitted, fresh
+//@   modifies cell(decls), cell(imports), cell(lastFile), map(*generated), array(*decls), array(*imports), emitted, inprog, fresh(coq.Decl, coq.ImportDecl, any)
+//@   loop 1 invariant [C04 frame: only the output cells, the generated map and the ghosts change] modifies_only(cell(decls), cell(imports), cell(lastFile), map(*generated), array(*decls), array(*imports), emitted, inprog, fresh(coq.Decl, coq.ImportDecl, any))
+//@   loop 1 invariant [C04 the output slices grow in place or move to fresh storage] (ref(*decls) == old(ref(*decls)) || fresh(*decls)) && (ref(*imports) == old(ref(*imports)) || fresh(*imports))
 //@   loop 1 invariant [C04 in progress] gen(g, id) && !emitted[id]
-//@   loop 1 invariant [C04 dependencies so far are emitted] forall k int :: {deps[k]} 0 <= k && k <= rangeindex && has(nd, deps[k]) ==> emitted[nd[deps[k]]]
-//@   loop 1 invariant [C04 every dependency ranks below this declaration] forall k int :: {deps[k]} 0 <= k && k < len(deps) && has(nd, deps[k]) ==> rank(nd[deps[k]]) < rank(id)
+//@   loop 1 invariant [C04 dependencies so far are emitted] forall j int :: {elemat(deps, j)} deps.off <= j && j <= deps.off + rangeindex && has(nd, elemat(deps, j)) ==> emitted[nd[elemat(deps, j)]]
+//@   loop 1 invariant [C04 every dependency ranks below this declaration] forall j int :: {elemat(deps, j)} deps.off <= j && j < deps.off + len(deps) && has(nd, elemat(deps, j)) ==> rank(nd[elemat(deps, j)]) < rank(id)
 //@   loop 1 invariant [C04 nothing is un-emitted] forall s declId :: {emitted[s]} old(emitted[s]) ==> emitted[s]
 //@   loop 1 invariant [C04 in progress: the same plus this one] forall s declId :: {emitted[s]} (gen(g, s) && !emitted[s]) <==> (old(gen(g, s) && !emitted[s]) || s == id)
 //@   loop 1 invariant [C04 only generated declarations are emitted] forall s declId :: {emitted[s]} emitted[s] ==> gen(g, s)
@@ -322,11 +357,19 @@ package goose
 //@   loop 5 invariant [C04 the declarations of the files so far are emitted] forall a int, b int :: 0 <= a && a < fi && 0 <= b && b < len(fs[a].Ast.Decls) ==> emitted[struct(declId, a, b)]
 //@   loop 5 invariant [C04 the declarations of this file so far are emitted] forall b int :: 0 <= b && b <= rangeindex ==> emitted[struct(declId, fi, b)]
 //@   loop 1 invariant [C04 dependency lists are allocated] depsalloc(declDeps)
+//@   loop 1 invariant [C07 every name belongs to a declaration of one of the files] namesvalid(nameDecls, len(fs))
 //@   loop 2 invariant [C04 dependency lists are allocated] depsalloc(declDeps)
+//@   loop 2 invariant [C07 every name belongs to a declaration of one of the files] namesvalid(nameDecls, len(fs))
 //@   loop 3 invariant [C04 dependency lists are allocated] depsalloc(declDeps)
+//@   loop 3 invariant [C07 every name belongs to a declaration of one of the files] namesvalid(nameDecls, len(fs))
 //@   loop 4 invariant [C04 dependency lists are allocated] depsalloc(declDeps)
+//@   loop 4 invariant [C07 every name belongs to a declaration of one of the files] namesvalid(nameDecls, len(fs))
 //@   loop 5 invariant [C04 dependency lists are allocated] depsalloc(declDeps)
+//@   loop 5 invariant [C07 every name belongs to a declaration of one of the files] namesvalid(nameDecls, len(fs))
 //@   loop 4 ghost_init emitted
+//@   loop 4 ghost_init inprog
+//@   loop 4 invariant [C07 the recursion stack is empty between top-level visits] forall s declId :: {inprog[s]} !inprog[s]
+//@   loop 5 invariant [C07 the recursion stack is empty between top-level visits] forall s declId :: {inprog[s]} !inprog[s]
 //@   loop 4 hypothesis [C04 acyclic dependency graph: a rank decreases along every edge] wellranked(declDeps, nameDecls)
 //@   loop 4 invariant [C04 nothing is in progress between top-level visits] forall s declId :: gen(generated, s) ==> emitted[s]
 //@   loop 4 invariant [C04 only generated declarations are emitted] forall s declId :: emitted[s] ==> gen(generated, s)
@@ -336,6 +379,8 @@ package goose
 //@   loop 5 invariant [C04 only generated declarations are emitted] forall s declId :: emitted[s] ==> gen(generated, s)
 //@   loop 5 invariant [C04 the dependency graph is still ranked] wellranked(declDeps, nameDecls)
 //@   loop 5 invariant [C04 generated map exists] generated != nil
+
+//@ default_use ast
 
 // ---- FFI selection and header (C08) ---------------------------------------------------------------
 // packages.Visit is not under contract (x/tools): that it runs `pre` and `post` over the import
